@@ -497,6 +497,8 @@ class DimArrayOnDisk(GetSetDelAttrMixin, NetCDFVariable, AbstractDimArray):
         if isinstance(dima, DimArray):
             for i, ax in enumerate(self.axes):
                 idx = indices[i]
+                if ax.name not in dima.dims:
+                    continue # e.g. a dimension indexed with a scalar: the value does not have it
                 axis = dima.axes[ax.name]
                 # write unlimited dimensions
                 if self._ds.dimensions[ax.name].isunlimited():
